@@ -30,22 +30,39 @@ func init() {
 	harnesses = append(harnesses, &vs.Harness{
 		Name:    "c04",
 		Horizon: 200 * time.Second,
+		// the only atomics in the broker are the rounded prometheus counters, which no oracle of
+		// this harness observes and which do not influence control flow
+		NoAtomicPoints: true,
 		Body: func(x *vs.X) {
-			w := newWorld()
-			x.User = w
+			// configuration choices come first (before any scheduling point) so that the explorer can
+			// shard by configuration
 			nP := cfgInt(x, "P", 1)
 			nC := cfgInt(x, "C", 1)
 			nBeh := cfgInt(x, "beh", nAnsBeh)
+			type pc struct {
+				arr time.Duration
+				beh int
+			}
+			var pcs []pc
+			var carr []time.Duration
 			for i := 0; i < nP; i++ {
 				arr := time.Duration(0)
 				if i > 0 {
 					// a second proxy may arrive while the first one's poll is about to expire
 					arr = []time.Duration{0, 5 * time.Second}[vs.Choose("parr", 2)]
 				}
-				w.addProxy(NATUnrestricted, "standalone", 0, arr, vs.Choose("beh", nBeh))
+				pcs = append(pcs, pc{arr, vs.Choose("beh", nBeh)})
 			}
 			for i := 0; i < nC; i++ {
-				w.addClient("unknown", "", c04Arrivals[vs.Choose("carr", len(c04Arrivals))], viaIPC)
+				carr = append(carr, c04Arrivals[vs.Choose("carr", len(c04Arrivals))])
+			}
+			w := newWorld()
+			x.User = w
+			for _, p := range pcs {
+				w.addProxy(NATUnrestricted, "standalone", 0, p.arr, p.beh)
+			}
+			for _, a := range carr {
+				w.addClient("unknown", "", a, viaIPC)
 			}
 			var sb strings.Builder
 			for _, p := range w.proxies {
